@@ -76,28 +76,7 @@ def job_shape(job):
             cands.append([model.get('d%d' % i, 0) for i in range(blen)])
             break
         if unk and not cands:
-            # the full query is out of the solver's reach: decide the single-symbolic-byte sub-claims
-            # (block = background with one free byte) - each folds to one 256-entry table per output
-            rnd0 = random.Random(seed + blen)
-            for bg in ([0] * blen, [rnd0.randrange(256) for _ in range(blen)]):
-                for p in range(blen):
-                    xv = T.var('s', 8)
-                    blk = list(bg)
-                    blk[p] = xv
-                    I2 = M.Interp(prog)
-                    r2 = I2.call_fn(f_div, [SliceRef(I2.mk(list(blk)), 0, blen), gen_ref])
-                    g2 = list(r2)[256 - len(gen):256 - len(gen) + ec]
-                    w2 = iso.rs_remainder(blk, ec)
-                    sub = [T.eq(8, a, b) for a, b in zip(g2, w2)]
-                    s2, n2, f2, u2 = discharge(solver, [('sub', c) for c in sub])
-                    if f2:
-                        blk[p] = f2[0][1].get('s', 0)
-                        cands.append(blk)
-                        break
-                if cands:
-                    break
-            if not cands:
-                raise Inconclusive('solver returned unknown for %s and the single-byte search found no witness' % unk[:3])
+            raise Inconclusive('solver returned unknown for %s and term evaluation found no witness' % unk[:3])
         for data in cands:
             ans = native.ask('division %s %d %d' % (OV.hexs(data), v, l))
             confirmed = False
